@@ -129,7 +129,7 @@ form('opt-invocation', { ops: ['trim'], instr: false }, F => `${F.loc()}.trim?.(
 form('opt-invocation-then-method', { ops: ['trim'] }, F => `w.o${F.id()}.f1?.(${F.s()}).trim()`)
 form('opt-invocation-undefined-then-method', { ops: ['trim'] }, F => `w.o${F.id()}.u1?.(${F.s()}).trim()`)
 form('opt-unlisted', { ops: [], instr: false }, F => `${F.loc()}?.charAt(0)`)
-form('opt-arg-opt', { ops: ['concat', 'trim'] }, F => `${F.loc()}?.concat(${F.loc()}?.trim())`)
+form('opt-arg-opt', { ops: ['concat', 'trim'], kf: 'D17' }, F => `${F.loc()}?.concat(${F.loc()}?.trim())`)
 form('opt-nested-arg-guard', { ops: ['trim', 'concat'], kf: 'D17' }, F => { const o = `w.o${F.id()}`; return `${o}?.n1?.trim().concat(${o}?.s2.trim())` })
 form('opt-shadowed-undefined', { ops: ['trim'], kf: 'D21', sloppy: true }, F => `(function (undefined) { return w.n${F.id()}?.trim() })(5)`)
 // bare call
